@@ -44,6 +44,8 @@ impl StaticSource {
 pub enum Label {
     Ref(u16),
     Unfilled(String),
+    /// Literal offset from the following line, whose target is not a representable line number
+    Offset(i16),
 }
 
 impl Label {
@@ -81,7 +83,7 @@ impl Label {
                     Err(miette!("Label not found"))
                 }
             }
-            Self::Ref(_) => Ok(self),
+            Self::Ref(_) | Self::Offset(_) => Ok(self),
         })
     }
 
@@ -99,7 +101,7 @@ impl Label {
     pub fn is_unfilled(&self) -> bool {
         match self {
             Label::Unfilled(_) => false,
-            Label::Ref(_) => true,
+            Label::Ref(_) | Label::Offset(_) => true,
         }
     }
 }
